@@ -33,6 +33,7 @@ var Hinters = []encoder.DecodeDetail{
 	{Hint: isaac.ACCEPTExpelVoteproofHint, Instance: isaac.ACCEPTExpelVoteproof{}},
 	{Hint: isaac.ACCEPTStuckVoteproofHint, Instance: isaac.ACCEPTStuckVoteproof{}},
 	{Hint: isaac.FixedSuffrageCandidateLimiterRuleHint, Instance: isaac.FixedSuffrageCandidateLimiterRule{}},
+	{Hint: isaac.MajoritySuffrageCandidateLimiterRuleHint, Instance: isaac.MajoritySuffrageCandidateLimiterRule{}},
 	{Hint: isaac.INITBallotFactHint, Instance: isaac.INITBallotFact{}},
 	{Hint: isaac.EmptyProposalINITBallotFactHint, Instance: isaac.EmptyProposalINITBallotFact{}},
 	{Hint: isaac.EmptyOperationsACCEPTBallotFactHint, Instance: isaac.EmptyOperationsACCEPTBallotFact{}},
